@@ -261,6 +261,8 @@ def _cancel_factor(t, b):
     def strip(u):
         return u.arg(0) if z3.is_app(u) and u.decl().kind() == z3.Z3_OP_TO_REAL else u
     t, b = strip(t), strip(b)
+    if not (z3.is_int(t) and z3.is_int(b)):
+        return None          # integer terms only (shape arithmetic such as (W*n)/n); real quotients are left to the solver
     if z3.is_mul(t) and t.num_args() == 2:
         x, y = strip(t.arg(0)), strip(t.arg(1))
         if y.eq(b):
